@@ -494,8 +494,12 @@ func main() {
 					break
 				}
 			}
-			for strings.HasPrefix(line, "fatal error: fatal error: ") { // two goroutines reporting at once
-				line = strings.TrimPrefix(line, "fatal error: ")
+			// two goroutines may report at once and garble the line: classify by phrase
+			for _, ph := range []string{"concurrent map writes", "concurrent map read and map write", "concurrent map iteration and map write", "all goroutines are asleep"} {
+				if strings.Contains(stderr, "fatal error: "+ph) || (strings.Contains(line, "fatal error:") && strings.Contains(stderr, ph)) {
+					line = "fatal error: " + ph
+					break
+				}
 			}
 			if line == "" {
 				line = err.Error()
